@@ -61,6 +61,7 @@ fixed("FX-C05-03", "C05", "a71d371", "UnmarshalWithOption({\"a\":1 x}, &struct{A
 fixed("FX-C06-07", "C06", "e35cc2f", "Decoder.Decode of \"\\xff\\u0041\" (ill-formed UTF-8 followed by a \\u escape) fed in pieces into a string destination panicked (slice bounds out of range in decodeUnicode): the stream length was over-counted by one per replaced byte")
 fixed("FX-C09-08", "C09", "e35cc2f", "a >500-byte document with ill-formed UTF-8 in strings, cut at 510, made Decoder fail with io.ErrNoProgress (zero-length Read: no room left in a buffer that was not flagged full); Unmarshal decodes it")
 fixed("FX-C05-04", "C05", "13c8293", "a Decoder fed 3 bytes at a time accepted {\"A\":\"\",\" \\\"  :  2933322023 } (unterminated key): refill right behind a backslash in an unknown struct key resumed on the escaped byte (found by the chunked stream entries added to C05 for seeded change C05c)")
+fixed("FX-C10-04", "C10", "4f16a78", "32 goroutines encoding []T of a recursive T (or a struct with an interface member) for the first time under GC pressure: the programs of the goroutines that lost the cache publication were collected while running a nested program (return address held as uintptr only): 'encoder: opcode  has not been implemented', wrong output, 'found bad pointer in Go heap', SIGSEGV in vm.Run; present in the original tree")
 fixed("FX-C15-01", "C15", "57be1d1", "Decoder fed 5-byte chunks failed on fully \\u-escaped keys")
 
 fixed("FX-C06-04", "C06", "0243e9f", "Compact/Indent of a 100000-deep tower: fatal out of memory / stack overflow (no nesting limit)")
